@@ -184,4 +184,17 @@ pub fn run(ctx: &mut Ctx) {
             report(ctx, "zinc-roundtrip", &m, bits, f);
         }
     }
+    // wide values: more than 128 siblings at one level
+    let n = ctx.n(60, 1_000);
+    for i in 0..n {
+        if !ctx.begin("wide", i) {
+            continue;
+        }
+        let mut rng = ctx.case_rng("wide", i);
+        let m = crate::gen::gen_wide(&mut rng);
+        ctx.eval("wide", m.fp(), true);
+        if let Err(f) = zinc_roundtrip(&m, 0) {
+            report(ctx, "zinc-roundtrip", &m, 0, f);
+        }
+    }
 }
